@@ -29,6 +29,8 @@ def _setup(chk, model):
 
 def _is_copy_of(t, src) -> bool:
     """t is {k: v for k, v in src.items()} / dict(src) / src.copy() / {**src}: the same entries, nothing filtered or replaced."""
+    if t == src:
+        return True  # the given table itself is consulted (the new entries are collected separately and merged over a copy of it afterwards)
     items = T.mk_call(T.mk_attr(src, "items"), [])
     if t[0] == "comp" and t[1] == "dict" and len(t[3]) == 1 and not t[4] and t[3][0][1] == items and t[2][0] == "tuple" and len(t[2][1]) == 2:
         k, v = t[2][1]
@@ -212,7 +214,7 @@ def run(chk: Check, model):
     for rz in raises:
         for k in kinds:
             g = rz.guard
-            for a in [a for a in flow.bool_atoms(g, []) if mentions(a, "TrainableDist")]:
+            for a in [a for a in flow.bool_atoms(g, []) if a[0] == "call" and a[1] == "isinstance" and len(a[2]) == 2 and mentions(a[2][1], "TrainableDist")]:
                 g = T.assume(g, a, False)  # the rejection must not depend on the delay being trainable
             if g != T.FALSE and (mentions(g, k) or any(x[0] == "sym" and x[1].endswith(k) for x in T.walk(g))):
                 kinds[k] += 1
@@ -233,7 +235,10 @@ def run(chk: Check, model):
             sc = scans[0]
             init = sc.args[1]
             ok = init[0] == "tuple" and len(init[1]) == 2 and T.call_name(init[1][0][1]).endswith(".sample") if init[0] == "tuple" and init[1][0][0] == "index" else False
-            ph = [x for x in T.walk(init) if x[0] == "call" and T.call_name(x) == "distrax.Deterministic"]
+            # (the distribution that is sampled, not the random key handed to it: the key's split count mentions every table)
+            smp_rcv = init[1][0][1][1][1] if ok and init[1][0][1][1][0] == "attr" else init
+            smp_rcv = smp_rcv[1] if smp_rcv[0] == "replace" else smp_rcv
+            ph = [x for x in T.walk(smp_rcv[1] if smp_rcv[0] == "index" else smp_rcv) if x[0] == "call" and T.call_name(x) == "distrax.Deterministic"]
             ok = ok and len(ph) >= 1 and all(dict(x[3]).get("loc") is not None and dict(x[3])["loc"][0] == "attr" and dict(x[3])["loc"][2] == "phase" for x in ph)
             # (what the scanned function is bound to - the node stored under this key, the episode's horizon - is checked on the
             # function as bound at this very call: rule_scan)
@@ -287,7 +292,7 @@ def run(chk: Check, model):
                         okr = okr and len(smp) == 1 and xv == T.add(tev, smp[0])
                         if okr:
                             rcv = smp[0][1][1][1]
-                            okr = rcv[0] == "replace" and rcv[1][0] == "index" and rcv[1][2] == key and "rng" in dict(rcv[2])
+                            okr = rcv[0] == "replace" and "rng" in dict(rcv[2]) and _own_entry(rcv[1], key, _conn_table(r, fi)[1])
                     chk.add("C12.mask", "arrival = sender ts_end + sampled communication delay of this connection", bool(okr), f"arrival times are {T.show(xs)[:200]}, expected ts_end + communication_delays[(out, in)].replace(rng=...).sample(...)[1]",
                             chk.loc(f_ep, sc2[0].node))
                     if okr:
@@ -296,17 +301,19 @@ def run(chk: Check, model):
                 else:
                     chk.unknown("C12.mask", "assignment scan", "expected one scan over the arrival times", chk.loc(f_ep))
     # communication delay table keyed by (sender, receiver) — and every connection of every node is covered
-    st = [e for e in r.events if e.kind == "store_sub" and e.func == fi.qualname and e.key is not None and e.key[0] == "tuple" and len(e.key[1]) == 2 and len(e.loops) == 2
-          and not (e.term[0] == "obj" and e.term[1] == "Edge")]
-    ok = len(st) == 2 and st[0].key == st[1].key and st[0].key[0] == "tuple"
+    st, comps = _conn_table(r, fi)
+    ok = len(st) in (1, 2) and len(comps) == 2 and all(e.key == st[0].key for e in st) and st[0].key[0] == "tuple"
     if ok:
         k = st[0].key[1]
         ok = k[0][0] == "attr" and k[0][2] == "name" and k[0][1][2] == "output_node" and k[1][1][2] == "input_node" and len(st[0].loops) == 2
     # the communication delay stored for a connection is that connection's own distribution (Deterministic(min) for a trainable one)
-    dd_st = [e for e in st if e.term[0] == "ite" or (e.term[0] == "attr" and e.term[2] == "delay_dist")]
+    class _V:
+        def __init__(self, term):
+            self.term = term
+    dd_st = [_V(v) for v, _ in comps if v[0] == "ite" or (v[0] == "attr" and v[2] == "delay_dist")]
     okd = len(dd_st) == 1
     if okd:
-        conn = [e for e in st if e is not dd_st[0]]
+        conn = [_V(v) for v, _ in comps if v is not dd_st[0].term]
         c_t = conn[0].term if conn else T.NONE
         v = dd_st[0].term
         if v[0] == "ite":
@@ -330,6 +337,45 @@ def run(chk: Check, model):
     chk.add("C12.augment", "augment_graphs removes exactly the episode axis it added", bool(oka), "an un-batched graph is expanded with expand_dims(x, axis=0) and must be restored with "
             "squeeze(x, axis=0) under the same condition (an axis-free squeeze also collapses length-1 vertex / message axes)", chk.loc(f_aug))
     chk.add("C12.augment", "connections keyed (sender, receiver) over all nodes' outputs", bool(ok), "communication delays and connections must be keyed (c.output_node.name, c.input_node.name) for every output of every node", chk.loc(fi))
+
+
+def _conn_table(r, fi):
+    """The per-connection table(s) of the generator: the stores keyed by a (sender, receiver) pair inside the loop over every node's
+    outputs, and the components stored per connection with the projection that gets each back out of its entry (None: the entry
+    itself).  The connection and its communication delay may sit in two tables or side by side in one entry (a pair, a record)."""
+    st = [e for e in r.events if e.kind == "store_sub" and e.func == fi.qualname and e.key is not None and e.key[0] == "tuple" and len(e.key[1]) == 2 and len(e.loops) == 2
+          and not (e.term[0] == "obj" and e.term[1] == "Edge")]
+    comps = []
+    for e in st:
+        v = e.term
+        if v[0] == "tuple":
+            comps += [(x, ("index", i)) for i, x in enumerate(v[1])]
+        elif v[0] == "obj":
+            comps += [(x, ("attr", k)) for k, x in v[2]]
+        else:
+            comps.append((v, None))
+    return st, comps
+
+
+def _own_entry(t, key, comps) -> bool:
+    """t is the communication delay stored for the connection `key`: table[key], or - iterating over the table's items - the delay
+    component of the item whose key is `key`."""
+    if t[0] == "index" and t[2] == key:
+        return True
+    proj = None
+    if t[0] == "attr":
+        proj, base = ("attr", t[2]), t[1]
+    elif t[0] == "index" and T.const_value(t[2]) is not None:
+        proj, base = ("index", T.const_value(t[2])), t[1]
+    if proj is None:
+        return False
+    dist = [p for v, p in comps if v[0] == "ite" or (v[0] == "attr" and v[2] == "delay_dist")]
+    if dist != [proj]:
+        return False
+    K = key
+    if key[0] == "tuple" and len(key[1]) == 2 and key[1][0][0] == "index" and key[1][1] == T.mk_index(key[1][0][1], T.ONE) and T.const_value(key[1][0][2]) == 0:
+        K = key[1][0][1]
+    return K[0] == "index" and T.const_value(K[2]) == 0 and base == T.mk_index(K[1], T.ONE)
 
 
 def _vert(sub, f_ep):
